@@ -923,7 +923,7 @@ func reportAll(s *core.Shard, sc *scenario, vs []verdict) {
 func run(s *core.Shard) {
 	runSymlinks(s, 7, "")
 	runComposed(s, 3, "")
-	runNonPaths(s, 2)
+	runNonPaths(s, 2, false)
 	combos := allCombos()
 	r := s.Rand("scenarios")
 	r.Shuffle(len(combos), func(i, j int) { combos[i], combos[j] = combos[j], combos[i] })
@@ -994,6 +994,10 @@ func replay(s *core.Shard, dir string) {
 	}
 	if kind.Kind == "composed" {
 		runComposed(s, 0, kind.ID)
+		return
+	}
+	if kind.Kind == "non-paths" {
+		runNonPaths(s, 0, true)
 		return
 	}
 	var sc scenario
